@@ -269,6 +269,77 @@ theorem c12_failure_never_allowed (tr : Transport) (cfg : Cfg) (acc : Accept) (h
     (cause : Err) (ctx : Ctx) : serveFailure tr.translator cfg acc hs cause ctx ≠ .allowed :=
   serveFailure_ne_allowed tr cfg acc hs cause ctx
 
+/-! ## the context of the request -/
+
+/-- **The answer to a failure depends neither on the state of the request's context nor on `context.Canceled` /
+`context.DeadlineExceeded` inside the failure.** Heimdall hands the context of the request to every mechanism; when
+the client goes away — or merely closes its sending direction and keeps reading, for which net/http cancels the
+context as well — an outbound call is aborted and the failure carries a `context` error somewhere in its chain. For
+every translator, configuration and `Accept` header, for any two states `rc`, `rc'` of the request's context and any
+two error values `e`, `e'` that consist of the same failures once the `context` errors are deleted wherever they
+occur (`Err.essential`): the handlers of the services give the same answer (status, headers, body, gRPC code), be the
+failure returned by the rule executor or kept as pipeline error and returned by `Finalize`; the translators classify
+both alike; and neither is ever given the positive answer. -/
+theorem c12_independent_of_request_context (tr : Transport) (cfg : Cfg) (acc : Accept) (rc rc' : ReqCtx)
+    (e e' : Err) (ctx : Ctx) (h : e.essential = e'.essential) :
+    handlerServe tr.translator cfg acc rc (some e) ctx = handlerServe tr.translator cfg acc rc' (some e') ctx ∧
+      handlerServe tr.translator cfg acc rc none { ctx with pipelineError := some e } =
+        handlerServe tr.translator cfg acc rc' none { ctx with pipelineError := some e' } ∧
+      classify tr.translator.cases tr.translator.dflt e = classify tr.translator.cases tr.translator.dflt e' ∧
+      handlerServe tr.translator cfg acc rc (some e) ctx ≠ .allowed ∧
+      handlerServe tr.translator cfg acc rc none { ctx with pipelineError := some e } ≠ .allowed := by
+  refine ⟨respond_congr_essential tr cfg acc [] h, ?_, ?_, ?_, ?_⟩
+  · simp only [handlerServe, serve, finalize, Option.map_some]
+    exact respond_congr_essential tr cfg acc _ h
+  · rw [tr_classify, tr_classify]; exact action_congr_essential h
+  · exact handlerServe_ne_allowed tr cfg acc rc _ ctx (Or.inl rfl)
+  · exact handlerServe_ne_allowed tr cfg acc rc none _ (Or.inr rfl)
+
+/-- a communication failure caused by the cancelled request context (`errorchain` with the `*url.Error` of the
+aborted call as cause) consists of the same failures as the bare communication failure; so does any value with a
+`context` error joined, wrapped or chained in -/
+example : (Err.chain [.kind .communication, .wrap (.ctxDone .canceled)]).essential =
+      (Err.chain [.kind .communication]).essential ∧
+    (Err.join [.wrap (.chain [.kind .authentication, .chain [.kind .timeout, .ctxDone .deadlineExceeded]]),
+      .ctxDone .canceled]).essential = [.kind .authentication, .kind .timeout] := by decide
+
+/-- the half-closing client of the demonstration: the pipeline waited on a remote system, the call was aborted,
+the request's context is cancelled — 502 from the HTTP services, 502 / DeadlineExceeded from the Envoy service;
+an authentication failure with that cause is a 401, the bare `context.Canceled` a 500 -/
+example :
+    handlerServe ErrMap.http ⟨false, ClassMap.const 0⟩ .absent .cancelled
+        (some (.chain [.kind .communication, .wrap (.ctxDone .canceled)])) ⟨[], none⟩ =
+      .resp ⟨502, [], none, none⟩ ∧
+    handlerServe ErrMap.grpc ⟨false, ClassMap.const 0⟩ .absent .deadlineExceeded
+        (some (.chain [.kind .timeout, .wrap (.ctxDone .deadlineExceeded)])) ⟨[], none⟩ =
+      .resp ⟨502, [], none, some 4⟩ ∧
+    handlerServe ErrMap.http ⟨false, ClassMap.const 0⟩ .absent .cancelled none
+        ⟨[], some (.chain [.kind .authentication, .chain [.kind .communication, .ctxDone .canceled]])⟩ =
+      .resp ⟨401, [], none, none⟩ ∧
+    handlerServe ErrMap.http ⟨false, ClassMap.const 0⟩ .absent .cancelled (some (.ctxDone .canceled)) ⟨[], none⟩ =
+      .resp ⟨500, [], none, none⟩ := by decide
+
+/-- **A failure met while the request's context is done is answered with the status of its class.** If the
+failures of a value other than the `context` errors all have class `c` (and there is at least one), then in every
+state of the request's context every service answers with the status configured for `c`, else 401 / 403 / 502 /
+400 / 404 / 500 — and not with a success status unless one is configured. -/
+theorem c12_cancelled_request_status (tr : Transport) (cfg : Cfg) (acc : Accept) (rc : ReqCtx) (e : Err)
+    (ctx : Ctx) (c : Class) (hv : cfg.valid = true) (hne : e.essential ≠ [])
+    (hall : ∀ l ∈ e.essential, l.action = .respond c) :
+    ∃ r, handlerServe tr.translator cfg acc rc (some e) ctx = .resp r ∧
+      r.status = (if cfg.ov.get c == 0 then defaultCodes.get c else cfg.ov.get c) ∧
+      (cfg.noSuccess = true → isSuccess r.status = false) := by
+  obtain ⟨r, hr, hs⟩ := c12_status tr cfg acc (plain e) c hv (action_of_essential_class e c hne hall)
+  refine ⟨r, hr, hs, fun hn => ?_⟩
+  rcases respond_inv hr with ⟨_, _, ha, _⟩ | ⟨c', ha, rfl⟩
+  · rw [show (plain e).err = e from rfl, action_of_essential_class e c hne hall] at ha; cases ha
+  · exact tr_code_noSuccess tr hn c'
+
+example : (Cfg.mk true { ClassMap.const 0 with comm := 503 }).valid = true ∧
+    (Err.chain [.kind .communication, .wrap (.ctxDone .canceled)]).essential ≠ [] ∧
+    ∀ l ∈ (Err.chain [.kind .communication, .wrap (.ctxDone .canceled)]).essential, l.action = .respond .comm := by
+  decide
+
 /-! ## error details -/
 
 /-- **No details unless verbose.** With verbose responses disabled no translator puts error details (nor a
